@@ -269,6 +269,8 @@ func Run(r *vk.Run) {
 	r.Require("restart-continuity", int64(nClean/4))
 	r.Require("crash-atomicity", int64(nClean/4))
 	r.Require("bound", int64(nClean))
+	r.Require("bound-change-submission-at-or-above-bound", int64(r.N(1500, 6000)/2))
+	r.Require("bound-change-submission-with-backlog-above-bound", int64(r.N(1500, 6000)/4))
 	r.Require("no-reappearance", int64(nClean))
 	r.Require("linearizable", int64(nConc*8/10))
 	r.Require("conservation", int64(nConc*8/10))
